@@ -182,3 +182,159 @@ def replay_g2d(model, mu, cov, x):
         if bad:
             return True, {"case": case, "native": nat, "spec_logp_unnorm": [want_lp, want_un], "reproduced_in": bad}
     return False, {"tried": tried[:2]}
+
+
+# ------------------------------------------------------------------------------------------------
+# tensor-based targets (burn API modelled): batched and single-point forms against closed forms
+# ------------------------------------------------------------------------------------------------
+def replay_targets(model=None):
+    rnd = random.Random(17)
+    tried = []
+    for k in range(4):
+        mean = [round(rnd.uniform(-1, 1), 2), round(rnd.uniform(-1, 1), 2)]
+        cov = [[4.0, 2.0, 2.0, 3.0], [1.5, 0.3, 0.7, 2.0], [2.0, -0.5, 0.4, 1.0], [1.0, 0.0, 0.0, 1.0]][k]
+        pts = [[round(rnd.uniform(-2, 2), 2), round(rnd.uniform(-2, 2), 2)] for _ in range(3)]
+        ndp = [[round(rnd.uniform(-1.5, 1.5), 2) for _ in range(3)] for _ in range(2)]
+        a, b = [1.0, 0.5, 2.0, 1.0][k], [100.0, 3.0, 10.0, 1.0][k]
+        case = {"case": "targets_eval", "mean": mean, "cov": cov, "points": pts, "nd_points": ndp, "a": a, "b": b}
+        nat = native(case)
+        det = cov[0] * cov[3] - cov[1] * cov[2]
+        wg, wr, wgrad = [], [], []
+        for (x, y) in pts:
+            dx, dy = x - mean[0], y - mean[1]
+            quad = (dx * (cov[3] * dx - cov[2] * dy) + dy * (cov[0] * dy - cov[1] * dx)) / det
+            wg.append(-(2 * math.log(2 * math.pi) + math.log(det)) / 2 - quad / 2)
+            wr.append(-((a - x) ** 2 + b * (y - x * x) ** 2))
+            i00, i01, i10, i11 = cov[3] / det, -cov[1] / det, -cov[2] / det, cov[0] / det
+            wgrad.append([-(i00 * dx + 0.5 * (i01 + i10) * dy), -(0.5 * (i01 + i10) * dx + i11 * dy)])
+        wnd = [-sum(100 * (p[i + 1] - p[i] ** 2) ** 2 + (1 - p[i]) ** 2 for i in range(len(p) - 1)) for p in ndp]
+        bad = []
+        for prof, r in nat.items():
+            if not isinstance(r, dict) or "gauss_batch" not in r:
+                if isinstance(r, dict) and r.get("panic"):
+                    bad.append(prof)
+                continue
+            f = lambda v: [float(str(z).replace("NaN", "nan")) for z in v]  # noqa: E731
+            ok = all(approx_eq(g, w, 1e-5, 1e-5) for g, w in zip(f(r["gauss_batch"]), wg)) and \
+                all(approx_eq(g, w, 1e-5, 1e-5) for g, w in zip(f(r["gauss_single"]), wg)) and \
+                all(approx_eq(g, w, 1e-5, 1e-5) for g, w in zip(f(r["rosen_batch"]), wr)) and \
+                all(approx_eq(g, w, 1e-5, 1e-5) for g, w in zip(f(r["rosen_single"]), wr)) and \
+                all(approx_eq(g, w, 1e-5, 1e-5) for g, w in zip(f(r["rosen_nd"]), wnd)) and \
+                all(approx_eq(g, w, 1e-5, 1e-5) for gg, ww in zip(r["gauss_grad"], wgrad) for g, w in zip(f(gg), ww)) and \
+                len(r["gauss_batch"]) == len(pts)
+            if not ok:
+                bad.append(prof)
+        tried.append({"case": case, "native": nat, "spec": {"gauss": wg, "rosen": wr, "rosen_nd": wnd, "gauss_grad": wgrad}})
+        if bad:
+            return True, dict(tried[-1], reproduced_in=bad)
+    return False, {"tried": tried[:1]}
+
+
+def c15_tensor_targets(out, tier, seed):
+    from models_burn import Ten
+    eng = mir_load.load_engine()
+    mirsym.MUL_MODE["mode"] = "exact"
+    batches = [1, 2] if tier == "quick" else [1, 2, 3]
+    u = MUnit(out, "C15", "c15_tensor_targets", eng,
+              functions=["<DiffableGaussian2D as BatchedGradientTarget>::unnorm_logp_batch", "<DiffableGaussian2D as GradientTarget>::unnorm_logp",
+                         "<Rosenbrock2D as BatchedGradientTarget>::unnorm_logp_batch", "<Rosenbrock2D as GradientTarget>::unnorm_logp",
+                         "<RosenbrockND as BatchedGradientTarget>::unnorm_logp_batch", "GradientTarget::unnorm_logp_and_grad (default method)",
+                         "DiffableGaussian2D::new"],
+              bounds=["batch sizes %s; RosenbrockND dimension 2..3 (4 thorough); all parameters and points arbitrary reals (det > 0)" % batches],
+              assumptions=R_ASSUME + ["burn tensor kernels follow their documented element-wise / broadcasting / matmul semantics (modelled)",
+                                      "autodiff is modelled by provenance: x.grad(&y.backward()) is the gradient of y w.r.t. x iff y was computed from x"],
+              out_of_scope=["that burn's autodiff returns the true gradient", "f32 accuracy of tensor kernels", "batch sizes / dimensions beyond the listed ones"])
+    g_new = eng.find_fn("DiffableGaussian2D::new")
+    g_batch = eng.find_fn("<DiffableGaussian2D as BatchedGradientTarget>::unnorm_logp_batch")
+    g_single = eng.find_fn("<DiffableGaussian2D as GradientTarget>::unnorm_logp")
+    r_batch = eng.find_fn("<Rosenbrock2D as BatchedGradientTarget>::unnorm_logp_batch")
+    r_single = eng.find_fn("<Rosenbrock2D as GradientTarget>::unnorm_logp")
+    nd_batch = eng.find_fn("<RosenbrockND as BatchedGradientTarget>::unnorm_logp_batch")
+    ax = pi_axioms()
+    for n in batches:
+        def run(ctx, n=n):
+            mu = [ctx.fresh_real("mu") for _ in range(2)]
+            a, b, c, d = [ctx.fresh_real("cov") for _ in range(4)]
+            det = a * d - b * c
+            ctx.assume(det.z() > 0)
+            X = [[ctx.fresh_real("x") for _ in range(2)] for _ in range(n)]
+            g = eng.call_fn(g_new, [[mu[0], mu[1]], [[a, b], [c, d]]])
+            lb = eng.call_fn(g_batch, [Ref.to(g), Ten(obj_array([v for r in X for v in r], (n, 2)))])
+            ls = [eng.call_fn(g_single, [Ref.to(g), Ten(obj_array(list(r), (2,)))]) for r in X]
+            ra, rb = ctx.fresh_real("ra"), ctx.fresh_real("rb")
+            ros = Struct("Rosenbrock2D", eng.src_index["structs"]["Rosenbrock2D"], [ra, rb])
+            rbatch = eng.call_fn(r_batch, [Ref.to(ros), Ten(obj_array([v for r in X for v in r], (n, 2)))])
+            rsing = [eng.call_fn(r_single, [Ref.to(ros), Ten(obj_array(list(r), (2,)))]) for r in X]
+            return mu, (a, b, c, d), det, X, g, lb, ls, (ra, rb), rbatch, rsing
+        for ctx, res in eng.explore(run):
+            u.paths += 1
+            if isinstance(res, Exception):
+                out.inconclusive.append("c15_tensor_targets batch=%d: %r" % (n, res))
+                continue
+            mu, (a, b, c, d), det, X, g, lb, ls, (ra, rb), rbatch, rsing = res
+            inst = "batch size %d" % n
+            u.holds(ctx, "batched evaluations return one value per row", tuple(lb.a.shape) == (n,) and tuple(rbatch.a.shape) == (n,), replay_targets, inst)
+            for r in range(n):
+                dx, dy = X[r][0] - mu[0], X[r][1] - mu[1]
+                quad = (dx * (d * dx - c * dy) + dy * (a * dy - b * dx)) / det
+                want = -(2 * ln(2 * PI) + ln(det)) / 2 - quad / 2
+                if tuple(lb.a.shape) == (n,):
+                    u.equal(ctx, "DiffableGaussian2D batch row r is the 2-D Gaussian log-density of row r", lb.a[r], want, replay_targets, inst, ax + [det.z() > 0])
+                u.equal(ctx, "DiffableGaussian2D single-point evaluation agrees with the batched one row by row", ls[r].a.reshape(-1)[0],
+                        lb.a[r] if tuple(lb.a.shape) == (n,) else want, replay_targets, inst, ax + [det.z() > 0])
+                x, y = X[r]
+                rw = -((ra - x) * (ra - x) + rb * ((y - x * x) * (y - x * x)))
+                if tuple(rbatch.a.shape) == (n,):
+                    u.equal(ctx, "Rosenbrock2D batch row r is -((a-x)^2 + b (y-x^2)^2)", rbatch.a[r], rw, replay_targets, inst)
+                u.equal(ctx, "Rosenbrock2D single-point evaluation agrees with the closed form", rsing[r].a.reshape(-1)[0], rw, replay_targets, inst)
+    dims = [2, 3] if tier == "quick" else [2, 3, 4]
+    for dim in dims:
+        def run2(ctx, dim=dim):
+            X = [[ctx.fresh_real("x") for _ in range(dim)] for _ in range(2)]
+            r = eng.call_fn(nd_batch, [Ref.to(Struct("RosenbrockND", [], [])), Ten(obj_array([v for row in X for v in row], (2, dim)))])
+            return X, r
+        for ctx, res in eng.explore(run2):
+            u.paths += 1
+            if isinstance(res, Exception):
+                out.inconclusive.append("c15_tensor_targets RosenbrockND dim=%d: %r" % (dim, res))
+                continue
+            X, r = res
+            for k in range(2):
+                s = None
+                for i in range(dim - 1):
+                    t = (X[k][i + 1] - X[k][i] * X[k][i])
+                    term = t * t * 100 + (Num(1) - X[k][i]) * (Num(1) - X[k][i])
+                    s = term if s is None else s + term
+                u.equal(ctx, "RosenbrockND row is -sum_i [100 (x_{i+1} - x_i^2)^2 + (1 - x_i)^2]", r.a[k], -s, replay_targets, "dim %d" % dim)
+    # default method wiring: value and gradient of the same call at the same point
+    LP = z3.Function("LPsingle", z3.RealSort(), z3.RealSort(), z3.RealSort())
+    G = [z3.Function("dLPsingle_%d" % i, z3.RealSort(), z3.RealSort(), z3.RealSort()) for i in range(2)]
+
+    def unnorm(e, callee, args):
+        pos = args[1]
+        while isinstance(pos, Ref):
+            pos = pos.get()
+        xs = [Num.of(v).z() for v in pos.a.reshape(-1)]
+
+        def gradfn(arr):
+            zs = [Num.of(v).z() for v in arr.reshape(-1)]
+            return obj_array([Num(g(*zs)) for g in G], (2,))
+        return Ten(obj_array([Num(LP(*xs))], (1,)), prov=("logp", pos.a.copy(), gradfn))
+    eng.override(r"^<Self as GradientTarget<T, B>>::unnorm_logp$", unnorm)
+
+    def run3(ctx):
+        x = [ctx.fresh_real("x") for _ in range(2)]
+        r = eng.call_fn("GradientTarget::unnorm_logp_and_grad", [Ref.to(Opaque("target")), Ten(obj_array(list(x), (2,)))])
+        return x, r
+    for ctx, res in eng.explore(run3):
+        u.paths += 1
+        if isinstance(res, Exception):
+            u.holds(ctx, "unnorm_logp_and_grad evaluates the target at the given point and differentiates that very evaluation", False, replay_targets, repr(res)[:120])
+            continue
+        x, r = res
+        val, grad = r.fields
+        zs = [v.z() for v in x]
+        u.equal(ctx, "unnorm_logp_and_grad returns the target's log-density at the given point", val.a.reshape(-1)[0], Num(LP(*zs)), replay_targets)
+        for i in range(2):
+            u.equal(ctx, "the gradient handed to HMC/NUTS is the gradient of that log-density at that point", grad.a.reshape(-1)[i], Num(G[i](*zs)), replay_targets)
+    u.done()
